@@ -255,7 +255,8 @@ func (runInfo *runInfoStruct) invokeMultiplyOperator(operator *ast.MultiplyOpera
 
 	switch operator.Operator {
 	case "*":
-		if lhsV.Kind() == reflect.String && (runInfo.rv.Kind() == reflect.Int || runInfo.rv.Kind() == reflect.Int32 || runInfo.rv.Kind() == reflect.Int64) {
+		if lhsV.Kind() == reflect.String && isNum(runInfo.rv) && runInfo.rv.Kind() != reflect.Float64 && runInfo.rv.Kind() != reflect.Float32 {
+			// a repeat count of any integer kind (a byte read from a []byte, a uint, ...)
 			count := toInt64(runInfo.rv)
 			if count < 0 {
 				runInfo.err = newStringError(operator, "negative repeat count")
